@@ -685,8 +685,8 @@ impl Brc20ProgApiServer for RpcServer {
         let mut lower_gas_limit = 21_000u64;
         let mut estimated_gas;
 
-        while lower_gas_limit + GAS_PER_BYTE < upper_gas_limit {
-            estimated_gas = (lower_gas_limit + upper_gas_limit) / 2;
+        while upper_gas_limit.saturating_sub(lower_gas_limit) > GAS_PER_BYTE {
+            estimated_gas = lower_gas_limit + (upper_gas_limit - lower_gas_limit) / 2;
             let receipt = self
                 .engine
                 .read_contract(&tx_info, start_block_height, Some(estimated_gas))
@@ -819,8 +819,8 @@ impl Brc20ProgApiServer for RpcServer {
             let mut upper_gas_limit = CONFIG.read().evm_call_gas_limit;
             let mut lower_gas_limit = 21_000u64;
 
-            while lower_gas_limit + GAS_PER_BYTE < upper_gas_limit {
-                estimated_gases[i] = (lower_gas_limit + upper_gas_limit) / 2;
+            while upper_gas_limit.saturating_sub(lower_gas_limit) > GAS_PER_BYTE {
+                estimated_gases[i] = lower_gas_limit + (upper_gas_limit - lower_gas_limit) / 2;
 
                 let receipts = self
                     .engine
